@@ -11,7 +11,7 @@
 (*   and the lattice is closed under the 24 cube rotations, so every       *)
 (*   rotated copy occurs too.  Deterministic thinning (hashes of the       *)
 (*   corner codes, offset by Seed): one in PairMod pairs <<a, b>> and one  *)
-(*   in PreMod triangles are built at all, one in GrowMod faces is grown,  *)
+(*   in PreMod triangles are built at all, one in GrowMod extensions too,   *)
 (*   one in FamMod one-hemisphere faces and one in PlainMod equator-       *)
 (*   touching faces are emitted.  All moduli 1 = the complete scope.       *)
 (* Mode "file": faces read from ndjson (catalogue 5..8-gons under Rot24    *)
@@ -54,8 +54,8 @@ Next ==
                                                 /\ face' = <<face[1], b, c>>
        \/ /\ Len(face) >= 3
           /\ Len(face) < MaxN
-          /\ H2(face) % GrowMod = 0
           /\ \E d \in Dirs : /\ Det(face[Len(face)], d, face[1]) > 0
+                             /\ H2(Append(face, d)) % GrowMod = 0
                              /\ ConvexCCW(Append(face, d))
                              /\ face' = Append(face, d)
 
